@@ -8,6 +8,7 @@ import Mathlib.LinearAlgebra.Matrix.NonsingularInverse
 import Mathlib.LinearAlgebra.Matrix.Determinant.Basic
 import Mathlib.LinearAlgebra.Matrix.RowCol
 import Mathlib.Data.List.Perm.Basic
+import Mathlib.LinearAlgebra.Matrix.Block
 
 open Matrix
 
@@ -97,6 +98,13 @@ theorem det_diagonal (d : n → α) : det (Matrix.diagonal d) = ∏ i, d i :=
 theorem det_gram_diag (A : Matrix n n α) (d : n → α) :
     det (A * Matrix.diagonal (fun i => 1 + d i) * Aᵀ) = det (A * Aᵀ) * ∏ i, (1 + d i) := by
   rw [det_mul, det_mul, det_mul, det_transpose, Matrix.det_diagonal]
+  ring
+
+/-- Cholesky: for lower-triangular `L`, `det (L Lᵀ) = (∏ L_ii)^2`, i.e. `ln det A = 2 Σ ln L_ii` for `A = L Lᵀ`. -/
+theorem det_cholesky {k : Type*} [Fintype k] [DecidableEq k] [LinearOrder k]
+    (L : Matrix k k α) (h : L.BlockTriangular ⇑OrderDual.toDual) :
+    det (L * Lᵀ) = (∏ i, L i i) ^ 2 := by
+  rw [det_mul, det_transpose, det_of_lowerTriangular L h]
   ring
 
 /-- 7. Determinant of a principal sub-block of `Σ` in terms of the complementary
